@@ -1,5 +1,6 @@
 import Norad.Lemmas.C12
 import Norad.Lemmas.C02
+import Norad.Lemmas.GlifGen
 import Norad.Props.C11
 /-!
 # C12 — glif documents breaking the structure rules are rejected, legal ones accepted
@@ -601,8 +602,14 @@ theorem attr_order_irrelevant (s : PS) {l₁ l₂ : List Attr} (hp : l₁.Perm l
 
 -- Second phase: `advance_attr_order_irrelevant`, `unicode_attr_order_irrelevant`, `contour_attr_order_irrelevant`,
 --   `glyph_attr_order_irrelevant` (section "attribute order, remaining loops" below).
--- OPEN (same pattern; the key enumeration is nested through `TKey`, 36 sub-cases): `image`, `component`.
--- OPEN: legal_accepted for the whole grammar `Spec.flatten d` (any element order, comments anywhere, both versions).
+-- Third phase: `component_attr_order_irrelevant`, `image_attr_order_irrelevant` (all nine loops now), and for whole
+--   documents `parseGlif_attr_order_irrelevant` (section "attribute order, image/component and whole documents").
+-- Third phase: `legal_accepted` (end of this file) for the generative grammar `render f d` of `Lemmas/GlifGen.lean`: format 2,
+--   items in ANY order, comments anywhere, any attribute order (`EvsPerm`), any spelling that reads back.
+-- OPEN: the link from the table-driven specification `Spec.judge rd (d : Spec.Doc) = ([], false)` to the hypotheses of
+--   `legal_accepted` (per-element: `judge`-clean attribute list ⇒ a permutation of the canonical list of a valid object),
+--   and format 1.  Earlier note, kept:
+-- (was OPEN) legal_accepted for the whole grammar `Spec.flatten d` (any element order, comments anywhere, both versions).
 --   Kernel-checked instead (second phase, `Lemmas/C02.lean`, listed in the audit): acceptance element family by element
 --   family, each for ANY parser state at the right level (= any position of any document) and any spelling `shw` of the
 --   numbers that Rust's parser reads back: `step_advance`, `reach_unicodes`, `step_image`, `step_anchor`/`reach_anchors`,
@@ -736,6 +743,244 @@ theorem glyph_attr_order_irrelevant {l₁ l₂ : List Attr} (hp : l₁.Perm l₂
 
 end
 
+/-! ### attribute order, image/component and whole documents -/
+
+section
+variable (rd : Str → Option Nat)
+
+theorem tKeyOf_inj {s t : Str} {k : TKey} (hs : tKeyOf s = some k) (ht : tKeyOf t = some k) : s = t := by
+  unfold tKeyOf at hs ht
+  repeat' split at hs
+  all_goals repeat' split at ht
+  all_goals first
+    | (simp at hs; done)
+    | (simp at ht; done)
+    | (simp only [Option.some.injEq] at hs ht; subst hs; first | (cases ht; simp_all) | cases ht)
+
+theorem cKeyOf_inj {s t : Str} {k : CKey} (hs : cKeyOf s = some k) (ht : cKeyOf t = some k) : s = t := by
+  unfold cKeyOf at hs ht
+  cases h1 : tKeyOf s with
+  | some k1 =>
+    cases h2 : tKeyOf t with
+    | some k2 =>
+      simp only [h1, h2, Option.some.injEq] at hs ht
+      subst hs
+      cases ht
+      exact tKeyOf_inj h1 h2
+    | none =>
+      simp only [h1, h2, Option.some.injEq] at hs ht
+      subst hs
+      repeat' split at ht
+      all_goals simp at ht
+  | none =>
+    cases h2 : tKeyOf t with
+    | some k2 =>
+      simp only [h1, h2, Option.some.injEq] at hs ht
+      subst ht
+      repeat' split at hs
+      all_goals simp at hs
+    | none =>
+      simp only [h1, h2] at hs ht
+      repeat' split at hs
+      all_goals repeat' split at ht
+      all_goals first
+        | (simp at hs; done)
+        | (simp at ht; done)
+        | (simp only [Option.some.injEq] at hs ht; subst hs; first | (cases ht; simp_all) | cases ht)
+
+theorem tSet_comm (a b : TKey) (n m : Nat) (t : Transform) (h : a ≠ b) : tSet b m (tSet a n t) = tSet a n (tSet b m t) := by
+  cases a <;> cases b <;> first | exact absurd rfl h | rfl
+
+theorem cApply_comm (ver : Nat) (seen : List Str) (acc : CompAcc) (k₁ k₂ : CKey) (v₁ v₂ : Str) (hk : k₁ ≠ k₂) :
+    (cApply rd ver seen k₁ v₁ acc).bind (cApply rd ver seen k₂ v₂) =
+    (cApply rd ver seen k₂ v₂ acc).bind (cApply rd ver seen k₁ v₁) := by
+  rcases k₁ with a | _ | _ <;> rcases k₂ with b | _ | _ <;> first | exact absurd rfl hk | skip
+  · have hab : a ≠ b := fun e => hk (by rw [e])
+    simp only [cApply]
+    cases h1 : rd v₁ <;> cases h2 : rd v₂ <;> simp [cApply, h1, h2, tSet_comm a b _ _ _ hab]
+  all_goals
+    simp only [cApply]
+    repeat' split
+    all_goals simp_all [cApply]
+
+theorem cStep_comm (ver : Nat) (seen : List Str) (acc : CompAcc) (a b : Attr) (hab : a.1 ≠ b.1) :
+    (cStep rd ver seen acc a).bind (fun s => cStep rd ver seen s b) =
+    (cStep rd ver seen acc b).bind (fun s => cStep rd ver seen s a) := by
+  unfold cStep
+  cases ha : cKeyOf a.1 with
+  | none =>
+    cases hb : cKeyOf b.1 with
+    | none => simp
+    | some kb => cases h : cApply rd ver seen kb b.2 acc <;> simp [ha, h]
+  | some ka =>
+    cases hb : cKeyOf b.1 with
+    | none => cases h : cApply rd ver seen ka a.2 acc <;> simp [hb, h]
+    | some kb =>
+      have hk : ka ≠ kb := fun h => hab (cKeyOf_inj ha (h ▸ hb))
+      have := cApply_comm rd ver seen acc ka kb a.2 b.2 hk
+      simpa [ha, hb] using this
+
+/-- **attr_order_irrelevant** (component) -/
+theorem component_attr_order_irrelevant (ver : Nat) (seen : List Str) {l₁ l₂ : List Attr} (hp : l₁.Perm l₂)
+    (hd : (l₁.map (fun e => e.1)).Nodup) : parseComponent rd ver seen l₁ = parseComponent rd ver seen l₂ := by
+  unfold parseComponent
+  rw [foldAttrs_perm _ (cStep_comm rd ver seen) hp hd]
+
+theorem iKeyOf_inj {s t : Str} {k : IKey} (hs : iKeyOf s = some k) (ht : iKeyOf t = some k) : s = t := by
+  unfold iKeyOf at hs ht
+  cases h1 : tKeyOf s with
+  | some k1 =>
+    cases h2 : tKeyOf t with
+    | some k2 =>
+      simp only [h1, h2, Option.some.injEq] at hs ht
+      subst hs
+      cases ht
+      exact tKeyOf_inj h1 h2
+    | none =>
+      simp only [h1, h2, Option.some.injEq] at hs ht
+      subst hs
+      repeat' split at ht
+      all_goals simp at ht
+  | none =>
+    cases h2 : tKeyOf t with
+    | some k2 =>
+      simp only [h1, h2, Option.some.injEq] at hs ht
+      subst ht
+      repeat' split at hs
+      all_goals simp at hs
+    | none =>
+      simp only [h1, h2] at hs ht
+      repeat' split at hs
+      all_goals repeat' split at ht
+      all_goals first
+        | (simp at hs; done)
+        | (simp at ht; done)
+        | (simp only [Option.some.injEq] at hs ht; subst hs; first | (cases ht; simp_all) | cases ht)
+
+theorem iApply_comm (acc : ImageAcc) (k₁ k₂ : IKey) (v₁ v₂ : Str) (hk : k₁ ≠ k₂) :
+    (iApply rd k₁ v₁ acc).bind (iApply rd k₂ v₂) = (iApply rd k₂ v₂ acc).bind (iApply rd k₁ v₁) := by
+  rcases k₁ with a | _ | _ <;> rcases k₂ with b | _ | _ <;> first | exact absurd rfl hk | skip
+  · have hab : a ≠ b := fun e => hk (by rw [e])
+    simp only [iApply]
+    cases h1 : rd v₁ <;> cases h2 : rd v₂ <;> simp [iApply, h1, h2, tSet_comm a b _ _ _ hab]
+  all_goals
+    simp only [iApply]
+    repeat' split
+    all_goals simp_all [iApply]
+
+theorem iStep_comm (acc : ImageAcc) (a b : Attr) (hab : a.1 ≠ b.1) :
+    (iStep rd acc a).bind (fun s => iStep rd s b) = (iStep rd acc b).bind (fun s => iStep rd s a) := by
+  unfold iStep
+  cases ha : iKeyOf a.1 with
+  | none =>
+    cases hb : iKeyOf b.1 with
+    | none => simp
+    | some kb => cases h : iApply rd kb b.2 acc <;> simp [ha, h]
+  | some ka =>
+    cases hb : iKeyOf b.1 with
+    | none => cases h : iApply rd ka a.2 acc <;> simp [hb, h]
+    | some kb =>
+      have hk : ka ≠ kb := fun h => hab (iKeyOf_inj ha (h ▸ hb))
+      have := iApply_comm rd acc ka kb a.2 b.2 hk
+      simpa [ha, hb] using this
+
+/-- **attr_order_irrelevant** (image) -/
+theorem image_attr_order_irrelevant {l₁ l₂ : List Attr} (hp : l₁.Perm l₂)
+    (hd : (l₁.map (fun e => e.1)).Nodup) : parseImage rd l₁ = parseImage rd l₂ := by
+  unfold parseImage
+  rw [foldAttrs_perm _ (iStep_comm rd) hp hd]
+
+/-! ### attribute order, for whole documents -/
+
+/-- the same event up to the order of its attributes (names pairwise different, as quick-xml guarantees) -/
+inductive EvPerm : Ev → Ev → Prop
+  | refl (e : Ev) : EvPerm e e
+  | start (n : Str) {l₁ l₂ : List Attr} : l₁.Perm l₂ → (l₁.map (fun e => e.1)).Nodup →
+      EvPerm (.start n (some l₁)) (.start n (some l₂))
+  | empty (n : Str) {l₁ l₂ : List Attr} : l₁.Perm l₂ → (l₁.map (fun e => e.1)).Nodup →
+      EvPerm (.empty n (some l₁)) (.empty n (some l₂))
+
+inductive EvsPerm : List Ev → List Ev → Prop
+  | nil : EvsPerm [] []
+  | cons {e e' : Ev} {l l' : List Ev} : EvPerm e e' → EvsPerm l l' → EvsPerm (e :: l) (e' :: l')
+
+theorem step_evperm (s : PS) {e e' : Ev} (h : EvPerm e e') : step rd s e = step rd s e' := by
+  cases h with
+  | refl => rfl
+  | start n hp hd =>
+    have ec := contour_attr_order_irrelevant s.ver s.seen hp hd
+    unfold step
+    cases s.mode <;> simp only [stepBody, stepOutline, stepContour, stepLib, stepNote, ec]
+  | empty n hp hd =>
+    have e1 := advance_attr_order_irrelevant rd hp hd
+    have e2 := unicode_attr_order_irrelevant s.g.codepoints hp hd
+    have e3 := anchor_attr_order_irrelevant rd s.ver s.seen hp hd
+    have e4 := guideline_attr_order_irrelevant rd s.ver s.seen hp hd
+    have e5 := image_attr_order_irrelevant rd hp hd
+    have e6 := component_attr_order_irrelevant rd s.ver s.seen hp hd
+    have e7 := point_attr_order_irrelevant rd s.ver s.seen hp hd
+    unfold step
+    cases s.mode <;> simp only [stepBody, bodyEmpty, stepOutline, stepContour, stepLib, stepNote, e1, e2, e3, e4, e5, e6, e7]
+
+theorem run_evsperm {evs evs' : List Ev} (h : EvsPerm evs evs') : ∀ s, run rd s evs = run rd s evs' := by
+  induction h with
+  | nil => intro s; rfl
+  | cons he _ ih =>
+    intro s
+    simp only [run, step_evperm rd s he]
+    cases step rd s _ with
+    | error k => rfl
+    | ok r => cases r with
+      | inl s' => exact ih s'
+      | inr g => rfl
+
+theorem parseGlif_start (n : Str) (a : Option (List Attr)) (l : List Ev) :
+    parseGlif rd (.start n a :: l) =
+      if n = sGlyph then
+        (match parseGlyphAttrs a with
+         | .ok (name, ver) => run rd { g := { name := name }, ver := ver } l
+         | .error k => .error k)
+      else .error .wrongFirstElement := by
+  unfold parseGlif
+  simp only [scanStart]
+  by_cases hn : n = sGlyph
+  · simp only [hn, if_true]
+    cases parseGlyphAttrs a with
+    | error k => rfl
+    | ok p => rfl
+  · simp [hn]
+
+/-- **attr_order_irrelevant, whole documents**: permuting the attributes of any elements of a document does not
+    change the result of the parse (accepted glyph or error kind) -/
+theorem parseGlif_attr_order_irrelevant {evs evs' : List Ev} (h : EvsPerm evs evs') :
+    parseGlif rd evs = parseGlif rd evs' := by
+  induction h with
+  | nil => rfl
+  | @cons e e' l l' he ht ih =>
+    cases he with
+    | refl =>
+      cases e with
+      | comment => simpa [parseGlif, scanStart] using ih
+      | decl => simpa [parseGlif, scanStart] using ih
+      | start n a =>
+        rw [parseGlif_start, parseGlif_start]
+        split
+        · cases parseGlyphAttrs a with
+          | error k => rfl
+          | ok p => exact run_evsperm rd ht _
+        · rfl
+      | _ => simp [parseGlif, scanStart]
+    | start n hp hd =>
+      rw [parseGlif_start, parseGlif_start, glyph_attr_order_irrelevant hp hd]
+      split
+      · cases parseGlyphAttrs _ with
+        | error k => rfl
+        | ok p => exact run_evsperm rd ht _
+      · rfl
+    | empty n hp hd => simp [parseGlif, scanStart]
+
+end
+
 /-! ### legal documents are accepted -/
 
 section
@@ -753,6 +998,26 @@ theorem legal_accepted_canonical (hc : Codec f rd nc ok) {g : Glyph} (hv : Valid
   have hw : writtenLib g = g.lib := by simp [writtenLib, dump_empty_of_no_libs hobj]
   have : dictGet objectLibsKey (preG f nc g).lib = none := by simpa [preG, hw] using hkey
   simp [loadObjectLibs, this]
+
+end
+
+/-! ### legal documents are accepted: the whole grammar -/
+
+section
+variable {f : Fmt} {rd : Str → Option Nat} {nc : Color → Color} {ok : Nat → Prop}
+
+/-- **legal_accepted**: a document of the generative grammar (format 2; items in any order; comments before the root,
+    between items, inside `outline` and `contour`; content after `</glyph>`; any spelling of numbers and colours that reads
+    back) whose items obey the rules, and whose lib — if it uses `public.objectLibs` — holds a dictionary of dictionaries
+    there, is accepted; so is every document that differs from it only in the order of attributes (`EvsPerm`). -/
+theorem legal_accepted (hc : Codec f rd nc ok) (d : GDoc) (hp : ∀ e, e ∈ d.prolog → isProlog e = true)
+    (hn : validName d.name = true) (hL : LegalItems ok d.items)
+    (hol : ∀ v, dictGet objectLibsKey (interp nc d).lib = some v → ∃ ol, v = PV.dict ol ∧ AllDicts ol)
+    {evs : List Ev} (hperm : EvsPerm (render f d) evs) :
+    ∃ g, parseGlif rd evs = .ok g ∧ loadObjectLibs (interp nc d) = .ok g := by
+  obtain ⟨g, hg⟩ := loadObjectLibs_ok hol
+  refine ⟨g, ?_, hg⟩
+  rw [← parseGlif_attr_order_irrelevant rd hperm, legal_accepted_gdoc hc d hp hn hL, hg]
 
 end
 
